@@ -69,6 +69,13 @@ print("detected by:", {p: v["violated"] or v["errors"] for p, v in results.items
 if keep:
     dst = os.path.join(VERIF, "seeded", sid)
     os.makedirs(dst, exist_ok=True)
+    prev = os.path.join(dst, "meta.json")
+    summary = {p: v["violated"] or v["errors"] for p, v in results.items()}
+    if os.path.exists(prev):
+        old = json.load(open(prev))
+        meta["first_contact"] = old.get("first_contact", {"detected": old.get("detected"), "by": {p: v.get("violated") or v.get("errors") for p, v in old.get("checks_reporting", {}).items()}})
+    else:
+        meta["first_contact"] = {"detected": meta["detected"], "by": summary, "verif_commit": sh("git -C %s rev-parse --short HEAD" % VERIF)[1].strip()}
     for f in ("patch.diff", "demo.py", "notes.md"):
         if os.path.exists(os.path.join(src, f)):
             shutil.copy(os.path.join(src, f), os.path.join(dst, f))
